@@ -34,6 +34,8 @@ type Case struct {
 	Mode    uint32   `json:"mode"`
 	OtherFS bool     `json:"other_fs"`
 	Name    string   `json:"name"`
+	Symlink bool     `json:"symlink,omitempty"` // the path given is a symbolic link to the file
+	Tty     bool     `json:"tty,omitempty"`     // one more run with a terminal as stdin / stdout / stderr
 }
 
 var exprs = []string{`.a = 1`, `.a.b += 1`, `.`, `del(.a)`, `.x = "new value"`, `.list += ["item"]`, `.. style=""`, `.a = `, `.a.b.c = 1`, `.a |= (. + 1)`, `select(.nope)`, `.nope`, `select(.a == 1)`, `.a = {"k": [1,2,3]}`, `... comments=""`, `to_entries`, `.[0] = "z"`, `.a * 2`, `error("boom")`, `(.a, .b) = 5`, `.big = ("x" * 5000)`}
@@ -50,6 +52,8 @@ func genCase(t *rapid.T) Case {
 	if rapid.IntRange(0, 4).Draw(t, "ea") == 0 {
 		c.Flags = append(c.Flags, "ea")
 	}
+	c.Symlink = rapid.IntRange(0, 4).Draw(t, "symlink") == 0
+	c.Tty = rapid.IntRange(0, 3).Draw(t, "tty") == 0
 	switch rapid.IntRange(0, 9).Draw(t, "flag") {
 	case 0:
 		c.Flags = append(c.Flags, "-e")
@@ -111,11 +115,23 @@ func (e *env) reset(c Case) error {
 	_ = os.Chmod(e.dir, 0o755)
 	_ = os.Chmod(e.target, 0o644)
 	_ = os.Remove(e.target)
-	if err := os.WriteFile(e.target, []byte(c.Content), os.FileMode(c.Mode)); err != nil {
+	file := e.target
+	if c.Symlink {
+		// the file lives under another name, the path given to yq is a link to it
+		file = filepath.Join(e.dir, "real-"+c.Name)
+		_ = os.Chmod(file, 0o644)
+		_ = os.Remove(file)
+	}
+	if err := os.WriteFile(file, []byte(c.Content), os.FileMode(c.Mode)); err != nil {
 		return err
 	}
-	if err := os.Chmod(e.target, os.FileMode(c.Mode)); err != nil {
+	if err := os.Chmod(file, os.FileMode(c.Mode)); err != nil {
 		return err
+	}
+	if c.Symlink {
+		if err := os.Symlink(filepath.Base(file), e.target); err != nil {
+			return err
+		}
 	}
 	ents, _ := os.ReadDir(e.tmp)
 	for _, x := range ents {
@@ -146,13 +162,20 @@ func (e *env) run(c Case, inplace bool, extraEnv []string, shellPrefix string, k
 	}
 	args = append(args, "--expression", c.Expr, e.target)
 	var cmd *exec.Cmd
-	if shellPrefix != "" {
+	if shellPrefix == "PTY" {
+		// a pseudo terminal as stdin, stdout and stderr of yq (what an interactive shell gives it)
+		cmd = exec.Command("/usr/bin/python3", append([]string{"-c", "import pty, sys, os\nst = pty.spawn(sys.argv[1:], lambda fd: os.read(fd, 65536))\nsys.exit(os.waitstatus_to_exitcode(st))", hx.YqPath()}, args...)...)
+	} else if shellPrefix != "" {
 		cmd = exec.Command("/bin/sh", append([]string{"-c", shellPrefix + ` exec "$0" "$@"`, hx.YqPath()}, args...)...)
 	} else {
 		cmd = exec.Command(hx.YqPath(), args...)
 	}
 	cmd.Dir = e.dir
 	cmd.Env = append([]string{"PATH=/usr/bin:/bin", "HOME=/nonexistent", "NO_COLOR=1", "TMPDIR=" + e.tmp}, extraEnv...)
+	if shellPrefix == "PTY" {
+		// an interactive shell: a terminal type, and nothing that switches colours off
+		cmd.Env = append([]string{"PATH=/usr/bin:/bin", "HOME=/nonexistent", "TERM=xterm-256color", "TMPDIR=" + e.tmp}, extraEnv...)
+	}
 	var so, se bytes.Buffer
 	cmd.Stdout, cmd.Stderr = &so, &se
 	cmd.Stdin = nil
@@ -307,6 +330,17 @@ func check(c Case) hx.Verdict {
 	}
 	if v := judge("nofault", base, false); v != nil {
 		return *v
+	}
+	if c.Tty {
+		// the same with a terminal on stdin / stdout / stderr: what goes into the file is not what a terminal would be shown
+		_ = e.reset(c)
+		tr := e.run(c, true, nil, "PTY", 0)
+		if tr.exit != base.exit {
+			return hx.Bad("", "with a terminal attached -i exits %d, without %d: %s", tr.exit, base.exit, short(c))
+		}
+		if v := judge("tty", tr, false); v != nil {
+			return *v
+		}
 	}
 	// enumerate
 	var faults []fault
